@@ -80,13 +80,14 @@ mainLoop:
 		var c *meta.Cursor
 		for {
 			// TODO (@fyrchik): #1731 this approach doesn't work in degraded modes
-			//  because ListWithCursor works only with the metabase.
+			//  because ListWithCursor works only with the metabase. Such a shard
+			//  can't be evacuated, report it instead of skipping its objects silently.
 			lst, cursor, err := sh.ListWithCursor(defaultEvacuateBatchSize, c)
 			if err != nil {
-				if errors.Is(err, meta.ErrEndOfListing) || errors.Is(err, shard.ErrDegradedMode) {
+				if errors.Is(err, meta.ErrEndOfListing) {
 					continue mainLoop
 				}
-				return count, err
+				return count, fmt.Errorf("list objects of shard %s: %w", sidList[n], err)
 			}
 
 			// TODO (@fyrchik): #1731 parallelize the loop
